@@ -16,12 +16,14 @@ C("P8E0::mul", "src/p8e0/ops.rs", r"pub const fn mul\(self, other: Self\) -> Sel
   ensures=[f"|r: &Self| {S}::mul_ok({_b('self')}, {_b('other')}, {_b('r')}, 8, 0)"], stubbed_in_b=True)
 
 # ---- a fully modular chain with Kani's own contract machinery: fract(x) = x - trunc(x) is proved against the
-# CONTRACTS of sub and trunc (stub_verified), which are proved against their bodies (proof_for_contract)
+# CONTRACTS of sub and trunc (stub_verified), which are proved against their bodies (proof_for_contract).
+# Woven only in variant C: Kani asserts woven postconditions at every call site, and a postcondition on `sub` would be re-checked
+# inside every harness that subtracts (rem, fract, quire residuals ...), which made c16_p16_rem run for more than an hour.
 for _T, _t, _n, _es in (("P8E0", "p8e0", 8, 0), ("P16E1", "p16e1", 16, 1)):
     C(f"{_T}::sub", f"src/{_t}/ops.rs", r"pub const fn sub\(self, other: Self\) -> Self",
-      ensures=[f"|r: &Self| {S}::sub_ok({_b('self')}, {_b('other')}, {_b('r')}, {_n}, {_es})"], stubbed_in_b=True)
+      ensures=[f"|r: &Self| {S}::sub_ok({_b('self')}, {_b('other')}, {_b('r')}, {_n}, {_es})"], stubbed_in_b=True, variant_only="C")
     C(f"{_T}::trunc", f"src/{_t}/math.rs", r"pub const fn trunc\(self\) -> Self",
-      ensures=[f"|r: &Self| {S}::intfn_ok({_b('self')}, {_b('r')}, {_n}, {_es}, {S}::IMode::Trunc)"], stubbed_in_b=True)
+      ensures=[f"|r: &Self| {S}::intfn_ok({_b('self')}, {_b('r')}, {_n}, {_es}, {S}::IMode::Trunc)"], stubbed_in_b=True, variant_only="C")
 
 # ---- integer dividers (crate root) ---------------------------------------------------------------
 for _f, _t in (("div", "i32"), ("lldiv", "i64")):
